@@ -49,16 +49,39 @@ def convert_entry(entry):
         for r in coll.rules:
             for e in r.errors:
                 out["errors"].append(_err(str(r.title), e))
+        # rules that failed to load are reported above and left out of the conversion (as a front end would)
+        coll.rules = [r for r in coll.rules if not r.errors]
         if entry.get("validators") is not None:
-            from sigma.validation import SigmaValidator
-            from sigma.plugins import InstalledSigmaPlugins
-            vals = InstalledSigmaPlugins.autodiscover().validators
-            v = SigmaValidator.from_dict(entry["validators"], vals)
-            for i in v.validate_rules(coll.rules):
-                extra = {k: str(x) for k, x in vars(i).items() if k != "rules"}
-                out["issues"].append([type(i).__name__, [str(r.title) for r in i.rules], extra])
-        res = backend.convert(coll, entry.get("format", "default"))
-        out["queries"] = [str(q) for q in res] if isinstance(res, list) else [repr(res)]
+            try:
+                from sigma.validation import SigmaValidator
+                from sigma.plugins import InstalledSigmaPlugins
+                vals = InstalledSigmaPlugins.autodiscover().validators
+                v = SigmaValidator.from_dict(entry["validators"], vals)
+                for i in v.validate_rules(coll.rules):
+                    # set-valued issue attributes are unordered by type: canonical (sorted) rendering
+                    extra = {k: (sorted(str(y) for y in x) if isinstance(x, (set, frozenset)) else str(x))
+                             for k, x in vars(i).items() if k != "rules"}
+                    out["issues"].append([type(i).__name__, [str(r.title) for r in i.rules], extra])
+            except BaseException as e:  # noqa
+                if isinstance(e, (KeyboardInterrupt, SystemExit, MemoryError)):
+                    raise
+                out["errors"].append(_err("<validators>", e))
+        fmt = entry.get("format", "default")
+        try:
+            res = backend.convert(coll, fmt)
+            out["queries"] = [str(q) for q in res] if isinstance(res, list) else [repr(res)]
+        except BaseException as e:  # noqa
+            if isinstance(e, (KeyboardInterrupt, SystemExit, MemoryError)):
+                raise
+            # the whole conversion was aborted (C07/C08 territory): record it, then convert rule by rule
+            out["errors"].append(_err("<convert>", e))
+            for r in coll.rules:
+                try:
+                    out["queries"] += [str(r.title) + ": " + str(q) for q in backend.convert_rule(r, fmt)]
+                except BaseException as e2:  # noqa
+                    if isinstance(e2, (KeyboardInterrupt, SystemExit, MemoryError)):
+                        raise
+                    out["errors"].append(_err(str(r.title), e2))
         for r, e in backend.errors:
             out["errors"].append(_err(str(r.title), e))
         for r in coll.rules:
@@ -110,6 +133,48 @@ def _sigma(e):
     return {"exc": type(e).__name__, "sigma": isinstance(e, SigmaError), "msg": str(e)}
 
 
+def cond_str(c, top=True):
+    """condition syntax tree ["id", n] | ["sel", all?, pat] | ["not", c] | ["bin", and?, a, b] -> condition text,
+    binary operators fully parenthesised so that the parser reproduces the tree"""
+    k = c[0]
+    if k == "id":
+        return c[1]
+    if k == "sel":
+        return ("all of " if c[1] else "1 of ") + c[2]
+    if k == "not":
+        inner = c[1]
+        s = cond_str(inner, False)
+        return "not " + (s if inner[0] in ("id", "bin") else "(" + s + ")")
+    s = cond_str(c[2], False) + (" and " if c[1] else " or ") + cond_str(c[3], False)
+    return s if top else "(" + s + ")"
+
+
+def _tree(c):
+    from sigma.conditions import ConditionAND, ConditionOR, ConditionNOT, ConditionFieldEqualsValueExpression
+    if c is None:
+        return ["none"]
+    if isinstance(c, ConditionFieldEqualsValueExpression):
+        return ["atom", str(c.value)]
+    if isinstance(c, ConditionNOT):
+        return ["not", _tree(c.args[0])]
+    if isinstance(c, ConditionAND):
+        return ["and", [_tree(a) for a in c.args]]
+    if isinstance(c, ConditionOR):
+        return ["or", [_tree(a) for a in c.args]]
+    return ["?", type(c).__name__]
+
+
+def _fields(det):
+    from sigma.rule import SigmaDetection
+    out = []
+    for it in det.detection_items:
+        if isinstance(it, SigmaDetection):
+            out += _fields(it)
+        else:
+            out.append(str(it.field))
+    return out
+
+
 def site(case):
     """Evaluate one site input in this process.  Result: {"ok": text} | {"err": message}."""
     import yaml
@@ -117,23 +182,33 @@ def site(case):
     try:
         if k == "strict":
             # rule with the given detection fields; pipeline = list of 1:n field mappings, then the strict check
-            items = [{"type": "field_name_mapping", "mapping": m} for m in case["maps"]]
+            sas = case.get("single_as_str")
+            items = [{"type": "field_name_mapping",
+                      "mapping": {f: (t[0] if sas and len(t) == 1 else t) for f, t in m.items()}} for m in case["maps"]]
             if case.get("nested"):
                 items = [{"type": "nest", "items": items}]
             items.append({"type": "strict_field_mapping_failure"})
-            pl = yaml.safe_dump({"name": "p", "priority": 10, "transformations": items})
+            pl = yaml.safe_dump({"name": "p", "priority": 10, "transformations": items}, allow_unicode=True)
             dets = {f"d{i}": [{f: "v"} for f in fs] for i, fs in enumerate(case["dets"])}
             dets["condition"] = "1 of d*"
-            docs = RULE_HEAD + yaml.safe_dump({"detection": dets}, sort_keys=False)
-            b, q = _convert(docs, pl)
-            return {"ok": q[0]}
+            docs = RULE_HEAD + yaml.safe_dump({"detection": dets}, sort_keys=False, allow_unicode=True)
+            from sigma.collection import SigmaCollection
+            from sigma.processing.pipeline import ProcessingPipeline
+            from sigma.backends.test import TextQueryTestBackend
+            b = TextQueryTestBackend(ProcessingPipeline.from_yaml(pl))
+            coll = SigmaCollection.from_yaml(docs)
+            q = b.convert(coll)
+            fm = b.last_processing_pipeline.field_mappings
+            return {"ok": q[0], "fields": [_fields(d) for d in coll.rules[0].detection.detections.values()],
+                    "fm": [[str(a), sorted(map(str, v))] for a, v in fm.items()],
+                    "tf": sorted([str(a), sorted(map(str, v))] for a, v in fm.target_fields.items())}
         if k == "unref":
             conds = {n: {"type": "logsource", "category": "test"} for n in case["conds"]}
             pl = yaml.safe_dump({"name": "p", "priority": 10, "transformations": [
                 {"type": "field_name_mapping", "mapping": {"zz": "yy"}, "rule_cond_expr": case["expr"],
                  "rule_conditions": conds}]}, sort_keys=False)
-            from sigma.processing.pipeline import ProcessingPipeline
-            ProcessingPipeline.from_yaml(pl)
+            from sigma.processing.pipeline import ProcessingItem
+            ProcessingItem.from_dict(yaml.safe_load(pl)["transformations"][0])
             return {"ok": ""}
         if k == "corr":
             from sigma.correlations import SigmaCorrelationCondition
@@ -156,12 +231,12 @@ def site(case):
                      for j, neg in enumerate(case["adds"])]
             pl = yaml.safe_dump({"name": "p", "priority": 10, "transformations": items}) if items else None
             dets = {n: {"x": n} for n in case["dets"]}
-            dets["condition"] = case["cond"]
-            docs = RULE_HEAD + yaml.safe_dump({"detection": dets}, sort_keys=False)
+            dets["condition"] = cond_str(case["cond"])
+            docs = RULE_HEAD + yaml.safe_dump({"detection": dets}, sort_keys=False, allow_unicode=True)
             for fi, f in enumerate(case["filters"]):
                 fd = {n: {"y": f"f{fi}{n}"} for n in f["dets"]}
                 fd["rules"] = ["5013332f-8a70-4a04-bcc1-06a98a2cca2e"]
-                fd["condition"] = f["cond"]
+                fd["condition"] = cond_str(f["cond"])
                 docs += "---\n" + yaml.safe_dump({"title": "F", "logsource": {"category": "test"}, "filter": fd},
                                                  sort_keys=False)
             from sigma.collection import SigmaCollection
@@ -176,8 +251,15 @@ def site(case):
                 m = ID_RE.match(str(kname))
                 if m and m.group(0) not in fnames:
                     fnames.append(m.group(0))
-            q = b.convert(coll)
-            return {"ok": q[0] if q else "", "cnames": cnames, "fnames": fnames}
+            try:
+                q = b.convert(coll)
+            except BaseException as e:  # noqa
+                m = re.fullmatch(r"Detection '(.*)' not defined in detections", str(e.args[0]) if e.args else "")
+                if m is None:
+                    raise
+                return {"undef": m.group(1), "cnames": cnames, "fnames": fnames}
+            tree = _tree(coll.rules[0].detection.parsed_condition[0].parsed)
+            return {"ok": q[0] if q else "", "tree": tree, "cnames": cnames, "fnames": fnames}
         if k == "tracking":
             from sigma.processing.tracking import FieldMappingTracking
             t = FieldMappingTracking()
@@ -189,30 +271,27 @@ def site(case):
                     for s, tg in op[1]:
                         o.add_mapping(s, tg)
                     t.merge(o)
-            fm = sorted([str(a), sorted(map(str, b))] for a, b in t.items())
+            fm = [[str(a), sorted(map(str, b))] for a, b in t.items()]          # dict order (insertion) is part of the observable
             tf = sorted([str(a), sorted(map(str, b))] for a, b in t.target_fields.items())
             return {"ok": json.dumps([fm, tf])}
-        if k == "issues":
+        if k == "dangling":
             from sigma.collection import SigmaCollection
             from sigma.validation import SigmaValidator
-            from sigma.validators.core.condition import DanglingDetectionValidator, DanglingConditionValidator
-            from sigma.validators.core.metadata import IdentifierExistenceValidator
-            vmap = {"dd": DanglingDetectionValidator, "dc": DanglingConditionValidator, "ie": IdentifierExistenceValidator}
+            from sigma.validators.core.condition import DanglingDetectionValidator
             dets = {n: {"x": n} for n in case["dets"]}
-            dets["condition"] = case["cond"]
-            docs = "title: T\nlogsource: {category: test}\n" + yaml.safe_dump({"detection": dets}, sort_keys=False)
-            coll = SigmaCollection.from_yaml(docs, collect_errors=True)
-            v = SigmaValidator([vmap[x] for x in case["validators"]])
-            res = []
-            for i in v.validate_rules(coll.rules):
-                res.append(type(i).__name__ + ":" + str(getattr(i, "detection_name", getattr(i, "condition_name", ""))))
+            dets["condition"] = " or ".join(case["refs"])
+            docs = "title: T\nlogsource: {category: test}\n" + yaml.safe_dump({"detection": dets}, sort_keys=False,
+                                                                               allow_unicode=True)
+            coll = SigmaCollection.from_yaml(docs)
+            v = SigmaValidator([DanglingDetectionValidator])
+            res = [type(i).__name__ + ":" + str(i.detection_name) for i in v.validate_rules(coll.rules)]
             return {"ok": "\n".join(res)}
         return {"err": "unknown site"}
     except BaseException as e:  # noqa
         if isinstance(e, (KeyboardInterrupt, SystemExit, MemoryError)):
             raise
         from sigma.exceptions import SigmaError
-        return {"err": str(e), "cls": type(e).__name__, "sigma": isinstance(e, SigmaError)}
+        return {"err": str(e.args[0]) if e.args else str(e), "cls": type(e).__name__, "sigma": isinstance(e, SigmaError)}
 
 
 def worker_main():
